@@ -342,6 +342,51 @@ def check(run, project):
             run.ob("P3", ok, f"{ref}: default `{norm(d)[:30]}` is immutable", "a mutable default argument is shared between calls",
                    module=mod, node=d, func=ref.qual, construct=f"default {norm(d)[:60]}")
         check_memo(run, ref, keyspace)
+    # P6: a mutable container written in a class body is ONE object shared by all instances; a method that mutates it in
+    # place through `self.<name>` changes it for every other instance (every other decode) unless __init__ gives each
+    # instance its own (an unconditional `self.<name> = ...` at the top level of __init__)
+    n_cls = 0
+    for mname, m_ in sorted(project.modules.items()):
+        for c_ in [x for x in ast.walk(m_.tree) if isinstance(x, ast.ClassDef)]:
+            shared = {}
+            for st in c_.body:
+                tgt = st.targets[0] if isinstance(st, ast.Assign) and len(st.targets) == 1 else st.target if isinstance(st, ast.AnnAssign) else None
+                v_ = getattr(st, "value", None)
+                if isinstance(tgt, ast.Name) and v_ is not None and (
+                        isinstance(v_, (ast.List, ast.Dict, ast.Set, ast.ListComp, ast.DictComp, ast.SetComp)) or
+                        (isinstance(v_, ast.Call) and call_name(v_) in ("list", "dict", "set", "bytearray", "defaultdict", "deque"))):
+                    shared[tgt.id] = st
+            if not shared:
+                continue
+            n_cls += 1
+            meths = [f_ for f_ in c_.body if isinstance(f_, ast.FunctionDef)]
+            init = next((f_ for f_ in meths if f_.name == "__init__"), None)
+            own = set()
+            if init is not None and init.args.args:
+                me = init.args.args[0].arg
+                for st in init.body:
+                    for t_ in (st.targets if isinstance(st, ast.Assign) else [st.target] if isinstance(st, ast.AnnAssign) and st.value is not None else []):
+                        if isinstance(t_, ast.Attribute) and isinstance(t_.value, ast.Name) and t_.value.id == me:
+                            own.add(t_.attr)
+            for f_ in meths:
+                if not f_.args.args or any(norm(d_) in ("staticmethod",) for d_ in f_.decorator_list):
+                    continue
+                me = f_.args.args[0].arg
+                for x in ast.walk(f_):
+                    hit = None
+                    if isinstance(x, ast.Call) and isinstance(x.func, ast.Attribute) and x.func.attr in MUTATORS \
+                            and isinstance(x.func.value, ast.Attribute) and isinstance(x.func.value.value, ast.Name) and x.func.value.value.id == me:
+                        hit = x.func.value.attr
+                    elif isinstance(x, (ast.Subscript,)) and isinstance(x.ctx, (ast.Store, ast.Del)) and isinstance(x.value, ast.Attribute) \
+                            and isinstance(x.value.value, ast.Name) and x.value.value.id == me:
+                        hit = x.value.attr
+                    if hit in shared and hit not in own:
+                        run.ob("P6", False, f"{c_.name}.{f_.name}: in-place change of the class-level `{hit}`",
+                               f"`{norm(x)[:60]}` changes `{c_.name}.{hit}`, a mutable object created once in the class body and never "
+                               f"replaced per instance in __init__: every instance of {c_.name} (every decode) shares it, so what one "
+                               "input leaves behind is seen by the next", module=m_, node=x, func=f"{c_.name}.{f_.name}",
+                               construct=f"{c_.name}.{hit} shared mutable")
+    run.ob("P6", True, f"class-level mutable containers ({n_cls} classes) are never mutated through an instance that does not own a copy")
     # P3: module-level generator objects in reachable modules
     for mname in sorted({r.mod.name for r in reach.values()}):
         mod = project.module(mname)
